@@ -211,12 +211,22 @@ def _apply(fnode, ren):
     return cnt
 
 
-def _inline_new_temporaries(fnode, known):
+def _temporary_candidates(fnode, known):
+    """names that `_inline_new_temporaries` could fold right now"""
+    locs, params = _own_locals(fnode)
+    stores, loads = {}, {}
+    for n in walk_no_nested(fnode):
+        if isinstance(n, ast.Name):
+            (stores if isinstance(n.ctx, (ast.Store, ast.Del)) else loads).setdefault(n.id, []).append(n)
+    return sorted(x for x in locs if x not in known and len(stores.get(x, [])) == 1 and len(loads.get(x, [])) == 1)
+
+
+def _inline_new_temporaries(fnode, known, only=None, limit=12):
     """A local that the reference version of the function does not have, that is assigned once (`x = E`, E free of random
     draws) and read once, later in the same block with none of E's operands (nor x) reassigned in between, is a freshly
     introduced temporary: its use is replaced by E and the definition dropped (the inverse of an extract-variable refactor)."""
     done = []
-    for _ in range(12):
+    for _ in range(limit):
         locs, params = _own_locals(fnode)
         cand = None
         stores, loads = {}, {}
@@ -232,7 +242,7 @@ def _inline_new_temporaries(fnode, known):
                     if not (isinstance(st, ast.Assign) and len(st.targets) == 1 and isinstance(st.targets[0], ast.Name)):
                         continue
                     x = st.targets[0].id
-                    if x in known or x not in locs or len(stores.get(x, [])) != 1 or len(loads.get(x, [])) != 1:
+                    if x in known or x not in locs or len(stores.get(x, [])) != 1 or len(loads.get(x, [])) != 1 or (only is not None and x != only):
                         continue
                     txt = ast.unparse(st.value)
                     if 'rng' in txt or 'random' in txt:
@@ -381,8 +391,15 @@ def _expand_call(hnode, call, mode, target_stmt):
     if not body or not _tail_returns_only(body):
         return None
     straight = all(isinstance(st, (ast.Assign, ast.AugAssign, ast.Expr, ast.Return, ast.AnnAssign)) for st in body)
+    via_temp = None
     if mode == 'value' and not (straight and isinstance(body[-1], ast.Return) and body[-1].value is not None):
-        return None
+        if not _all_paths_return(body):
+            return None
+        # a helper with branches used inside an expression: its result goes through a fresh name assigned on every path
+        _HCOUNT[0] += 1
+        via_temp = '_h%d_result' % _HCOUNT[0]
+        mode = 'assign'
+        target_stmt = ast.copy_location(ast.Assign(targets=[ast.Name(id=via_temp, ctx=ast.Store())], value=call), target_stmt)
     if mode in ('assign', 'value', 'return') and not _all_paths_return(body):
         return None
     _HCOUNT[0] += 1
@@ -399,6 +416,16 @@ def _expand_call(hnode, call, mode, target_stmt):
         for pn, arg in binding.items():
             if isinstance(arg, ast.Name) and arg.id == tname and rets and all(isinstance(r.value, ast.Name) and r.value.id == pn for r in rets):
                 same_name = pn
+    # `T = helper(..)` where every return hands back the same helper-local `r`: that local *is* T in the expanded text
+    ret_local = None
+    if mode == 'assign' and same_name is None and len(target_stmt.targets) == 1 and isinstance(target_stmt.targets[0], ast.Name):
+        rets = [x for x in ast.walk(hnode) if isinstance(x, ast.Return)]
+        names = {r.value.id for r in rets if isinstance(r.value, ast.Name)}
+        tname = target_stmt.targets[0].id
+        if rets and len(names) == 1 and all(isinstance(r.value, ast.Name) for r in rets) and next(iter(names)) in locs \
+                and tname not in {n.id for a_ in binding.values() for n in ast.walk(a_) if isinstance(n, ast.Name)}:
+            ret_local = next(iter(names))
+            mapping[ret_local] = tname
     for pn, arg in binding.items():
         simple = not any(isinstance(x, (ast.Call, ast.Lambda, ast.IfExp, ast.BoolOp, ast.ListComp, ast.GeneratorExp)) for x in ast.walk(arg))
         if pn == same_name:
@@ -416,7 +443,7 @@ def _expand_call(hnode, call, mode, target_stmt):
             if isinstance(st, ast.Return):
                 v = st.value if st.value is not None else ast.Constant(value=None)
                 if mode == 'assign':
-                    if not (same_name is not None and isinstance(v, ast.Name) and v.id == target_stmt.targets[0].id):
+                    if not ((same_name is not None or ret_local is not None) and isinstance(v, ast.Name) and v.id == target_stmt.targets[0].id):
                         out.append(ast.Assign(targets=copy.deepcopy(target_stmt.targets), value=v))
                 elif mode == 'return':
                     out.append(ast.Return(value=v))
@@ -436,6 +463,8 @@ def _expand_call(hnode, call, mode, target_stmt):
     if mode == 'value':
         value = stmts[-1][1]
         stmts = stmts[:-1]
+    if via_temp is not None:
+        value = ast.Name(id=via_temp, ctx=ast.Load())
     stmts = [x for x in pre + stmts if not isinstance(x, ast.Pass)]
     for x in stmts:
         ast.copy_location(x, target_stmt)
@@ -523,6 +552,39 @@ def _inline_new_helpers(fnode, helpers):
     return done
 
 
+def _fold_tuple_copies(fnode, known):
+    """`a, t = f(..)` followed (next statement) by `X = t`, with t a name the reference does not have and used nowhere else:
+    the element is written directly, `a, X = f(..)`."""
+    done = []
+    for owner in [fnode] + [x for x in walk_no_nested(fnode) if isinstance(x, (ast.If, ast.For, ast.While, ast.With, ast.Try))]:
+        for field in ('body', 'orelse', 'finalbody'):
+            blk = getattr(owner, field, None)
+            if not isinstance(blk, list):
+                continue
+            i = 0
+            while i + 1 < len(blk):
+                st, nx = blk[i], blk[i + 1]
+                if isinstance(st, ast.Assign) and len(st.targets) == 1 and isinstance(st.targets[0], ast.Tuple) \
+                        and isinstance(nx, ast.Assign) and len(nx.targets) == 1 and isinstance(nx.value, ast.Name):
+                    t = nx.value.id
+                    elts = st.targets[0].elts
+                    pos = [k for k, e in enumerate(elts) if isinstance(e, ast.Name) and e.id == t]
+                    uses = [n for n in ast.walk(fnode) if isinstance(n, ast.Name) and n.id == t]
+                    tgt_names = {n.id for n in ast.walk(nx.targets[0]) if isinstance(n, ast.Name)}
+                    other = {n.id for k, e in enumerate(elts) for n in ast.walk(e) if isinstance(n, ast.Name) and k not in pos}
+                    if t not in known and len(pos) == 1 and len(uses) == 2 and not (tgt_names & other) and t not in tgt_names:
+                        new_t = nx.targets[0]
+                        for n in ast.walk(new_t):
+                            if hasattr(n, 'ctx') and isinstance(n, (ast.Name, ast.Subscript, ast.Attribute)) and n is new_t:
+                                n.ctx = ast.Store()
+                        elts[pos[0]] = new_t
+                        del blk[i + 1]
+                        done.append(t)
+                        continue
+                i += 1
+    return done
+
+
 def normalise(prog, hints=None):
     """Rename locals in place (outer functions first).  Returns {function key: {old: new}} for the report."""
     if hints is None:
@@ -553,13 +615,33 @@ def normalise(prog, hints=None):
                     canonical(f.node, m._np_alias)
                     done.setdefault(key, {}).update({h: '<expanded>' for h in exp})
             known = set(hints[key]['sig'])
-            for _round in range(3):
+            ref_shapes = hints[key].get('shapes')
+            import copy as _copy
+            for _round in range(16):
                 cur = signatures(f.node)
                 ren = _mapping(cur, hints[key]['sig']) if cur and hints[key]['sig'] else {}
                 if ren:
                     _apply(f.node, ren)
                     done.setdefault(key, {}).update(ren)
-                inl = _inline_new_temporaries(f.node, known)
+                # fold ONE unknown temporary per round, the one that brings the function closest to the reference shape (a renamed
+                # variable of the reference must not be folded away before the renaming step had a chance to recognise it)
+                inl = _fold_tuple_copies(f.node, known)
+                if not inl:
+                    cands = _temporary_candidates(f.node, known)
+                    if ref_shapes is None:
+                        inl = _inline_new_temporaries(f.node, known)
+                    elif cands:
+                        base = shape_distance(shapes(f.node), ref_shapes)[0]
+                        best = None
+                        for nm in cands:
+                            trial = _copy.deepcopy(f.node)
+                            if _inline_new_temporaries(trial, known, only=nm, limit=1):
+                                canonical(trial, m._np_alias)
+                                d_ = shape_distance(shapes(trial), ref_shapes)[0]
+                                if d_ < base and (best is None or d_ < best[0]):
+                                    best = (d_, nm)
+                        if best is not None:
+                            inl = _inline_new_temporaries(f.node, known, only=best[1], limit=1)
                 if inl:
                     done.setdefault(key, {}).update({k: '<inlined>' for k in inl})
                     canonical(f.node, m._np_alias)
